@@ -78,14 +78,22 @@ def uuid_persist(ctx):
     for e in F.effects(sv, lambda e: e.name == 'dump', depth=1):
         top = F.flow.record(e.call.args[0], e.fn, e.bind)
     m_ = F.flow.rec_atoms(top, 'map') if top else set()
-    conds = [t for n in ast.walk(sv.node) if isinstance(
-        n, ast.comprehension) for t in n.ifs] + [
-        n.test for n in ast.walk(sv.node) if isinstance(n, (ast.If,
-                                                            ast.IfExp))]
+    # entries stored one by one: state['map'][k] = v.hex
+    for ent in (getattr(top, 'nested', {}) or {}).get('map', []):
+        k_, v_, f_, b_ = ent
+        m_ = m_ | F.flow.atoms(v_, f_, b_)
+    conds = []
+    for g_, b_ in F.frames(sv, 0):
+        if g_.cls is not sv.cls:
+            continue
+        conds += [(t, g_) for n in ast.walk(g_.node) if isinstance(
+            n, ast.comprehension) for t in n.ifs] + [
+            (n.test, g_) for n in ast.walk(g_.node)
+            if isinstance(n, (ast.If, ast.IfExp))]
     ok = top is not None and set(top) == {'version', 'map'} and \
         has(m_, 'self', '_map') and has(m_, 'hex') and \
         has(F.flow.rec_atoms(top, 'version'), 'version') and all(
-            has(F.atoms(t, sv), 'self', '_seen') for t in conds)
+            has(F.atoms(t, g_), 'self', '_seen') for t, g_ in conds)
     ctx.ob(R, 'UuidMap.save|writes-all-seen-keys', ok, sv.node,
            'save() does not write every key handed out in this run (and '
            'only those), or skips writing under some condition')
